@@ -56,7 +56,7 @@ func init() {
 
 	reg("C07", StoreProfile{Backends: both, Limits: false, Retention: false, MaxSteps: 45, Headers: true,
 		Weights: w(defaultWeights, map[string]int{"enqueue": 30, "enqueue_batch": 8, "dequeue": 30, "nack": 12, "dead": 12, "dead_batch": 4, "advance": 16, "cancel": 8, "requeue": 10, "resume": 8, "dlq_requeue": 10, "cancel_f": 5, "requeue_f": 6, "resume_f": 5})},
-		"store part: payload bytes and header maps of every message stay identical across every operation that brings it back - redelivery after nack and after lease expiry, dead-lettering and DLQ requeue, cancel and resume, by id and by filter - on both backends (model rule C02.immutable.*, full listing with payload, headers and trace after every step; every dequeued item is compared too)", 8000, 400000)
+		"store part: payload bytes and header maps of every message stay identical across every operation that brings it back - redelivery after nack and after lease expiry, dead-lettering and DLQ requeue, cancel and resume, by id and by filter - on both backends (model rule C02.immutable.*, full listing with payload, headers and trace after every step; every dequeued item is compared too); header values include supplementary-plane and private-use runes, U+2028, quotes / backslashes, text that looks like an escape, and bytes that are not UTF-8 (recorded finding on SQLite)", 8000, 400000)
 
 	Register(&CheckSpec{
 		Prop: "C13", World: "diff",
